@@ -74,6 +74,7 @@ func graveyardWorker(db *DB, ctx context.Context, gcRateLimitInterval time.Durat
 		}
 
 		if len(toBeDeleted) == 0 {
+			verifHook("gc.roundDone", db)
 			for tableName, stat := range cleaningTimes {
 				db.metrics.GraveyardCleaningDuration(
 					tableName,
@@ -82,6 +83,8 @@ func graveyardWorker(db *DB, ctx context.Context, gcRateLimitInterval time.Durat
 			}
 			continue
 		}
+
+		verifHook("gc.scanned", db)
 
 		// Dead objects found, do a write transaction against all tables with dead objects in them.
 		tablesToModify := slices.Collect(maps.Keys(toBeDeleted))
@@ -102,6 +105,7 @@ func graveyardWorker(db *DB, ctx context.Context, gcRateLimitInterval time.Durat
 			cleaningTimes[tableName] = time.Since(start)
 		}
 		wtxn.Commit()
+		verifHook("gc.roundDone", db)
 
 		for tableName, stat := range cleaningTimes {
 			db.metrics.GraveyardCleaningDuration(
